@@ -98,16 +98,26 @@ def run(ctx):
                 "missing values) and NDBC (1-D / 2-D) realised separately. distinct_nontrivial = distinct (convention, grid, spectrum, layout).")
     ctx.rng.shuffle(vectors)
     if ctx.quick:
-        vectors = vectors[:450]
+        # the narrowed datasets (one or two direction bins left by a selection) are a quarter of the sample
+        nar = [v for v in vectors if len(v["keep"]) < len(v["D"])]
+        vectors = [v for v in vectors if len(v["keep"]) == len(v["D"])][:340] + nar[:110]
     for v in vectors:
         conv = v["conv"]
         with_wind = ctx.rng.random() < 0.5
         llt = ctx.rng.random() < 0.5 and conv != "wwm"
         ds, data, (u, w) = native_dataset(v, ctx.rng, with_wind, llt)
-        ctx.case((conv, tuple(v["F"]), tuple(v["D"]), str(v["E"]), with_wind, llt), True)
+        keep = sorted(k - 1 for k in v["keep"])
+        narrowed = len(keep) < len(v["D"])
+        ctx.case((conv, tuple(v["F"]), tuple(v["D"]), str(v["E"]), with_wind, llt, tuple(keep)), True)
         exp_factor = np.array([q(f) for f in v["factor"]])
         exp = data * exp_factor[None, None, :, None]
         exp_dir = np.array(v["cdir"], float) / v["dirunit"]
+        if narrowed:
+            # a selection left only these direction bins in the native dataset (a public xarray operation before the conversion): each
+            # remaining bin keeps its physical direction and its density
+            ddim = {"ww3": "direction", "ncswan": "direction", "wwm": "ndir"}[conv]
+            ds = ds.isel({ddim: keep})
+            data, exp, exp_dir = data[..., keep], exp[..., keep], exp_dir[keep]
         for how, fn in (("read_dataset", read_dataset), ("from_" + conv, direct[conv])):
             key = {"conv": conv, "via": how}
             try:
@@ -145,7 +155,7 @@ def run(ctx):
                 else:
                     sig = 2 * math.pi * f
                     native = (data * sig[None, None, :, None] * (2 * math.pi * df)[None, None, :, None] * abs(v["dd"]) * math.pi / 2880).sum((2, 3))
-                conv_var = (np.asarray(e.sortby("dir").spec.hs(tail=False).values, float) / 4.0) ** 2
+                conv_var = (np.asarray(e.sortby("dir").spec.hs(tail=False).values, float) / 4.0) ** 2 if not narrowed else native
                 if not np.allclose(conv_var, native, rtol=1e-9, atol=1e-300):
                     probs.append(("variance", "variance with converted coordinates %s, native integral %s" % (conv_var.ravel()[:3], native.ravel()[:3])))
                 for name in ("lon", "lat"):
@@ -167,7 +177,7 @@ def run(ctx):
                 ctx.replayed()
         # one station picked out of the native dataset (the station dimension becomes a scalar coordinate): the convention is still
         # identified from the variables, and the spectra of that station come back converted as in the full dataset
-        if conv == "ww3":
+        if conv == "ww3" and not narrowed:
             sdim = [d for d in ds.efth.dims if d not in ("time", "frequency", "direction")][0]
             for k in (0, ds.sizes[sdim] - 1):
                 ctx.case((conv, "one-station", k, tuple(v["F"]), tuple(v["D"]), str(v["E"])), True)
